@@ -659,3 +659,7 @@ Proof.
   - destruct (byratio_ops_spec y x Ob Oa) as [_ [_ [Eg _]]]. rewrite Eg in H1. apply negb_true_iff in H1. lia.
   - apply (IH Ok' H2 l1 x y l2). assumption.
 Qed.
+
+Lemma chunking_info_feerates (fr : list (Z * Z)) lin :
+  map snd (chunking_info (fun i => nth i fr (0, 0)) lin) = chunking (map (fun i => nth i fr (0, 0)) lin).
+Proof. apply chunking_info_snd. Qed.
